@@ -322,14 +322,15 @@ func makeDataPlane(runConfig RunConfig, authSCMP bool) dataPlane {
 	// than in AddInternalInterface. Currently there can be no dataplane without the udpip provider,
 	// therefore not having a registered factory for it is a panicable offsense. We have no plan B.
 
+	udpip := underlayProviders["udpip"](
+		runConfig.BatchSize,
+		runConfig.ReceiveBufferSize,
+		runConfig.SendBufferSize,
+	)
+	// Until SetPortRange is called the dispatched port range is empty (the documented default).
+	udpip.SetDispatchPorts(0, 0, topology.EndhostPort)
 	return dataPlane{
-		underlays: map[string]UnderlayProvider{
-			"udpip": underlayProviders["udpip"](
-				runConfig.BatchSize,
-				runConfig.ReceiveBufferSize,
-				runConfig.SendBufferSize,
-			),
-		},
+		underlays:                      map[string]UnderlayProvider{"udpip": udpip},
 		Metrics:                        metrics,
 		ExperimentalSCMPAuthentication: authSCMP,
 		RunConfig:                      runConfig,
@@ -409,9 +410,18 @@ func (d *dataPlane) SetKey(key []byte) error {
 	return nil
 }
 
+// SetPortRange sets the range of SCION ports that are delivered directly to the underlay port of
+// the same number; everything else goes to the default end-host port. The range is handed to every
+// underlay provider, whether it was instantiated before or after this call, and takes effect
+// regardless of whether the internal interface already exists.
 func (d *dataPlane) SetPortRange(start, end uint16) {
+	d.mtx.Lock()
+	defer d.mtx.Unlock()
 	d.dispatchedPortStart = start
 	d.dispatchedPortEnd = end
+	for _, u := range d.underlays {
+		u.SetDispatchPorts(start, end, topology.EndhostPort)
+	}
 }
 
 // AddInternalInterface sets the interface the data-plane will use to send/receive traffic in the
@@ -481,6 +491,8 @@ func (d *dataPlane) AddExternalInterface(
 			d.RunConfig.ReceiveBufferSize,
 			d.RunConfig.SendBufferSize,
 		)
+		underlay.SetDispatchPorts(
+			d.dispatchedPortStart, d.dispatchedPortEnd, topology.EndhostPort)
 		d.underlays[link.Provider] = underlay
 	}
 	d.linkTypes[ifID] = link.LinkTo
@@ -627,6 +639,8 @@ func (d *dataPlane) AddNextHop(
 			d.RunConfig.ReceiveBufferSize,
 			d.RunConfig.SendBufferSize,
 		)
+		underlay.SetDispatchPorts(
+			d.dispatchedPortStart, d.dispatchedPortEnd, topology.EndhostPort)
 		d.underlays[link.Provider] = underlay
 	}
 	d.linkTypes[ifID] = link.LinkTo
